@@ -455,6 +455,9 @@ def checkParams (d : Doc) : List (Sym × Val) → Out
   | (n, expected) :: rest =>
     if returnBranch false (isNone expected) then .escaped .unmodelled
     else if paramBranch false (isNone expected) then
+      -- `matching_params = list(filter(<lookup>, doc.params))`: the model knows the lookup "the documented name EQUALS the parameter's
+      -- name" (generated flag); any other lookup is outside the model
+      if !paramLookupIsNameEquality then .escaped .unmodelled else
       let matching := d.params.filter (fun p => p.name == n)
       -- `len(matching_params) != 1 or matching_params[0].type_name is None`
       let typeNone := match matching with
@@ -538,6 +541,60 @@ def decorateClassPlain (env : Env) : List (FnD × Doc) → Deco
       | .raised o => .raised o
       | _ => decorateClassPlain env rest
 
+/-! ### the members of a class that hold functions -/
+
+/-- how a function sits in the class that `for_all_methods(..)` receives -/
+inductive Role where
+  | method      -- `def m(self, …)`: `getattr(cls, attr)` is a `FunctionType`
+  | static      -- `@staticmethod`: `getattr(cls, attr)` is the plain function (`FunctionType`)
+  | classm      -- `@classmethod`: `getattr(cls, attr)` is a bound method (`MethodType`)
+  | fget        -- the getter of a property (`@property`, `property(fget=…)`)
+  | fset        -- its setter (`@x.setter`)
+  | fdel        -- its deleter (`@x.deleter`)
+deriving DecidableEq, Repr
+
+/-- is a function in this role handed to the decorator by the loop of `for_all_methods`?  Read from the generated facts: the classes
+    of the `isinstance` test of the function branch (the translator lists them only when the loop is `for attr in cls.__dict__:
+    attr_value = getattr(cls, attr)` and the branch's body is `setattr(cls, attr, decorator(attr_value))`), and the accessors of a
+    property that the property branch passes through `decorator` and stores, decorated, in the property the class gets back. -/
+def roleDecorated : Role → Bool
+  | .method => forAllMethodsFunctionTypes.contains "FunctionType"
+  | .static => forAllMethodsFunctionTypes.contains "FunctionType"
+  | .classm => forAllMethodsFunctionTypes.contains "MethodType"
+  | .fget => forAllMethodsHandlesProperties && forAllMethodsPropertyParts.contains "fget"
+  | .fset => forAllMethodsHandlesProperties && forAllMethodsPropertyParts.contains "fset"
+  | .fdel => forAllMethodsHandlesProperties && forAllMethodsPropertyParts.contains "fdel"
+
+/-- a function of the class with its role and its parsed docstring -/
+abbrev Member := Role × FnD × Doc
+
+/-- the functions the decorator receives, in the order of `cls.__dict__` (accessors of one property: getter, setter, deleter) -/
+def ownDecorated (dec : Role → Bool) (ms : List Member) : List (FnD × Doc) :=
+  (ms.filter (fun m => dec m.1)).map (fun m => m.2)
+
+/-- `pedantic_class_require_docstring(cls)` / `pedantic_class(cls)` (`plain`) for a class given by ALL the functions it holds -/
+def decorateMembersWith (dec : Role → Bool) (env : Env) (plain : Bool) (ms : List Member) : Deco :=
+  if !env.enabled then .original                                          -- `if not is_enabled(): return cls`
+  -- a test under which `decorate` hands the class back BEFORE the loop (generated list): whether it holds for a class is not part
+  -- of a case — outside the model
+  else if !forAllMethodsEarlyReturns.isEmpty then .raised (.escaped .unmodelled)
+  else if plain then decorateClassPlain env (ownDecorated dec ms) else decorateClass env (ownDecorated dec ms)
+
+def decorateMembers (env : Env) (plain : Bool) (ms : List Member) : Deco := decorateMembersWith roleDecorated env plain ms
+
+/-! ### the same `def` executed several times -/
+
+/-- several decorations one after the other in one interpreter (a factory called repeatedly, a loop, a reloaded module: the same
+    code object, annotations evaluated anew each time).  `pedantic.decorator` keeps nothing between two of them (generated fact
+    `decorationState = []`): each one is `decorateAs` of its own function; the first exception ends the sequence. -/
+def decorateSeq (env : Env) : List (DecoKind × FnD × Doc) → Deco
+  | [] => if env.enabled then .wrapper else .original
+  | (k, f, d) :: rest =>
+    if !env.enabled then .original
+    else match decorateAs env k f d with
+      | .raised o => .raised o
+      | _ => decorateSeq env rest
+
 /-! ## layer B: from the documented text to the outcome class -/
 
 /-- one documented type as the harness hands it over: the text and, when it is a Python expression, its syntax tree -/
@@ -575,11 +632,20 @@ structure RawDocstring where
   returns : Option (Nat × Option TypeText)
 deriving Repr
 
-/-- `context` after the loop body of `'return'` (first key) ran `_update_context` -/
-def ctxAfterReturn (f : FnD) : Ctx :=
+/-- `context` as `_check_docstring` sets it up before the loop: empty (`context = {}`), or — generated flag
+    `contextSeededWithModuleNames` — a copy of the globals `g` of the module that defines the function
+    (`context = dict(decorated_func.globals)`): the names the author of the module can use; the `__name__`s found in the annotations are
+    bound on top of them (the newest binding of a name is first) -/
+def initialCtx (g : Ctx) : Ctx := if contextSeededWithModuleNames then g else []
+
+/-- `context` after the loop body of `'return'` (first key) ran `_update_context`, starting from `c0` -/
+def ctxAfterReturn (c0 : Ctx) (f : FnD) : Ctx :=
   match f.ret with
-  | some (some v) => if contextUpdatedFirst then updateContext [] v else []
-  | _ => []          -- no key, or `None` (binds nothing)
+  | some (some v) => if contextUpdatedFirst then updateContext c0 v else c0
+  | _ => c0          -- no key, or `None` (binds nothing)
+
+/-- … starting from what `_check_docstring` starts from in a module whose globals are `g` -/
+def ctxStart (g : Ctx) (f : FnD) : Ctx := ctxAfterReturn (initialCtx g) f
 
 /-- `context` when the documented type of the parameter `n` is evaluated: the annotations up to and including `n` -/
 def ctxAt (ctx : Ctx) (n : Sym) : List (Sym × Val) → Ctx
@@ -593,11 +659,18 @@ def ctxFinal (ctx : Ctx) : List (Sym × Val) → Ctx
   | (_, v) :: rest => ctxFinal (if contextUpdatedFirst then updateContext ctx v else ctx) rest
 
 /-- every documented type with the outcome class it has *where the loop evaluates it* (an entry whose name is not an
-    annotated parameter is never evaluated; it gets the final context) -/
-def annotate (f : FnD) (r : RawDocstring) : Doc :=
-  { params := r.params.map (fun p => ⟨p.name, parseDocumentedType (ctxAt (ctxAfterReturn f) p.name f.anns) p.ty⟩)
-    returns := r.returns.map (fun (n, t) => (n, parseDocumentedType (ctxAfterReturn f) t)) }
+    annotated parameter is never evaluated; it gets the final context); `c0`: the context before the loop -/
+def annotateFrom (c0 : Ctx) (f : FnD) (r : RawDocstring) : Doc :=
+  { params := r.params.map (fun p => ⟨p.name, parseDocumentedType (ctxAt (ctxAfterReturn c0 f) p.name f.anns) p.ty⟩)
+    returns := r.returns.map (fun (n, t) => (n, parseDocumentedType (ctxAfterReturn c0 f) t)) }
 
-def decorateRaw (env : Env) (req : Bool) (f : FnD) (r : RawDocstring) : Deco := decorator env req f (annotate f r)
+/-- … for a function defined in a module whose globals are `g` -/
+def annotate (g : Ctx) (f : FnD) (r : RawDocstring) : Doc :=
+  { params := r.params.map (fun p => ⟨p.name, parseDocumentedType (ctxAt (ctxStart g f) p.name f.anns) p.ty⟩)
+    returns := r.returns.map (fun (n, t) => (n, parseDocumentedType (ctxStart g f) t)) }
+
+def decorateRawFrom (c0 : Ctx) (env : Env) (req : Bool) (f : FnD) (r : RawDocstring) : Deco := decorator env req f (annotateFrom c0 f r)
+
+def decorateRaw (env : Env) (req : Bool) (g : Ctx) (f : FnD) (r : RawDocstring) : Deco := decorator env req f (annotate g f r)
 
 end PedVerif.Docstring
